@@ -227,6 +227,11 @@ def gen_log_lines(pr, nlines, long_lines=False, maxlen=90):
         target = pr.randint(0, maxlen)
         if long_lines and pr.random() < 0.3:
             target = pr.randint(95, 160)
+        if long_lines and pr.random() < 0.25:
+            # more than 100 bytes but fewer than 100 characters (multi-byte characters only)
+            k = pr.randint(51, 90)
+            lines.append(pr.choice(["µ", "δ", "ä", "値"]) * k)
+            continue
         s = ""
         while len(s.encode("utf-8")) < target:
             s += pr.choice(_WORDS) + " "
